@@ -105,7 +105,7 @@ prop(
     module="Aquatic.Props.C05",
     technique="Lean 4 proof for an arbitrary keyed hash (window arithmetic, acceptance implies correct MAC) + differential check of the real ConnectionValidator at window boundaries, other addresses, all single-bit and sampled double-bit alterations, forged and previous-run ids",
     runs=[dict(harness="validator", driver="validator", quick=dict(cases=60), thorough=dict(cases=6000)),
-          dict(harness="udpnet", driver="udpnet", quick=dict(cases=2), thorough=dict(cases=24))],
+          dict(harness="udpnet", driver="udpnet", quick={"cases": 2, "mio-only": 1}, thorough={"cases": 24, "mio-only": 1})],
     nontrivial=["t=expiry-1", "t=expiry", "60s-future", "61s-future", "age=0", "foreign-or-altered-id", "id-stale", "id-foreign", "id-forged"],
     level_text="Theorems over every issue time, check time, age and address, for an arbitrary MAC function: an issued id is accepted from its address iff now < t + age and t <= now + 60; acceptance of any id from any address implies the presented tag equals the MAC of (embedded time, that address) - the precise form of 'rejected up to the 2^-32 guessing chance'; the u64 sums cannot overflow. Tie: the real ConnectionValidator (clock set through hook H4) on boundary triples, all 64 single-bit alterations, other addresses of both families, forged ids and ids of another validator instance.",
     level_note="Trusted: Lean kernel; BLAKE3 keyed hash idealised as an arbitrary function (the driver's oracle knows the MAC only of issued (time, address) pairs: a 2^-32 chance of a spurious alarm per forged id); constant_time_eq; native-endian split of the id modelled as two u32 halves; the socket workers' clock refresh (every 256 polls / 5 s pulse) is not modelled.",
@@ -131,7 +131,7 @@ prop(
     module="Aquatic.Props.C11",
     extra_modules=["Aquatic.Props.Store"],
     technique="Lean 4 proof (file parsing, parse-then-store reload, gate, clean under the list in force, end-to-end refinement over any interleaving) + differential check of the real update_access_list / create_from_path and of the stores' clean with lists",
-    runs=[dict(harness="udpnet", driver="udpnet", quick=dict(cases=2), thorough=dict(cases=24)),
+    runs=[dict(harness="udpnet", driver="udpnet", quick={"cases": 2, "mio-only": 1}, thorough={"cases": 24, "mio-only": 1}),
           dict(harness="acl", driver="acl", quick=dict(cases=500), thorough=dict(cases=50000)),
           dict(harness="udpstore", driver="store", quick=dict(cases=300, maxops=60), thorough=dict(cases=10000, maxops=120)),
           dict(harness="httpstore", driver="store", quick=dict(cases=300, maxops=60), thorough=dict(cases=10000, maxops=120))],
